@@ -126,9 +126,8 @@ def _transform_file(path: str, tr_cls) -> bool:
 
 def _copy_tree(repo: str) -> str:
     d = tempfile.mkdtemp(prefix="sa-sweep-")
-    shutil.copytree(os.path.join(repo, "eudoxia"), os.path.join(d, "eudoxia"), ignore=shutil.ignore_patterns("__pycache__"))
-    if os.path.isdir(os.path.join(repo, "go")):
-        shutil.copytree(os.path.join(repo, "go"), os.path.join(d, "go"))
+    from .variant import copy_tree
+    copy_tree(repo, d)
     return d
 
 
